@@ -268,7 +268,12 @@ func (p *propC04) Check(sc *Scenario, st *Stats) []Violation {
 	for _, c := range []string{"Decode", "CheckIntegrity"} {
 		r := runTask(&Task{Call: c, In: "m0", Read: planFull()}, map[string][]byte{"m0": cleanBytes}, nil, nil)
 		if r.ErrClass != "nil" {
-			return nil // precondition does not hold for this medium
+			if c == "CheckIntegrity" && r.Panic == "" {
+				// first sentence of the property: what Decode accepts (or Encode produced) passes CheckIntegrity
+				bad("CheckIntegrity/rejects-file-Decode-accepts", "the uncorrupted file is accepted by Decode but CheckIntegrity says: %s", r.Err)
+				return vs
+			}
+			return nil // Decode does not accept it: not a pool file for this property
 		}
 	}
 	st.Probe("precondition: pool file passes both")
